@@ -332,7 +332,7 @@ PROPS = {
                    "exactly at k (isolated_pulse); the sweep returns the first strict minimum (ls_first_strict_min).",
         level_note="Partial: finiteness and the 1e-6 bound in f64, homogeneity of multiplication by 2^k in IEEE (no "
                    "overflow/underflow) and faer's Cholesky solve (an uninterpreted function in the model) are covered by the "
-                   "bit-exact differential run and the oracles (scale 2^k for k in -8..=8, isolated pulse on all 256 wires), "
+                   "bit-exact differential run and the oracles (scale 2^k for k in -8..=8 and +-20, 30, 40, 60, 100, isolated pulse on all 256 wires), "
                    "not by theorems.",
         technique="carrier-generic Lean model and theorems (no float laws) + ordered-field theorems + bit-exact differential "
                   "correspondence check",
